@@ -708,7 +708,14 @@ def _xr_reproject_ds(
             dv, how=dst_geobox, resampling=resampling, dst_nodata=dst_nodata, **kw
         )
 
-    return src.map(_maybe_reproject)
+    out = src.map(_maybe_reproject)
+
+    # dataset level: drop stale CRS coordinates/attributes of the source
+    # and install coordinates of the destination geobox
+    stale = [str(c.name) for c in _locate_crs_coords(src)]
+    out = out.drop_vars(stale, errors="ignore").assign_coords(xr_coords(dst_geobox))
+    out.attrs = {k: v for k, v in out.attrs.items() if k not in SPATIAL_ATTRIBUTES}
+    return out
 
 
 def _xr_reproject_da(
